@@ -6,6 +6,6 @@ CONSTANTS
   Behaviours = {"ok", "5xx", "close", "never", "connfail"}
   Defects = {}
 SPECIFICATION Spec
-INVARIANTS AtMostOneReply NoFallOut EndsProperly GaugeExact AttemptsBound RetriesReturned RetriesBounded
+INVARIANTS AtMostOneReply NoFallOut EndsProperly GaugeExact AttemptsBound RetriesReturned RetriesBounded PerTryTimerOnlyWhileTryOpen
 PROPERTIES NoAttemptAfterReply RefinesAbs
 CHECK_DEADLOCK TRUE
